@@ -165,9 +165,11 @@ func Load(o LoadOpts) (*Prog, error) {
 		}
 		p.LibFns = append(p.LibFns, fns...)
 	}
+	p.LibFns = p.withInstances(p.LibFns)
 	for _, f := range p.LibFns {
 		p.fnIndex[f.String()] = f
 	}
+	p.discoverRoles()
 	p.Ctl = map[string][]*ssa.Function{}
 	for path, pk := range p.ByPath {
 		if strings.HasPrefix(path, modPath+"/"+controlsDir+"/") {
@@ -260,6 +262,37 @@ func (p *Prog) Fn(name string) *ssa.Function {
 	}
 	if f := pkg.Func(rest); f != nil {
 		return f
+	}
+	// an unexported method that was turned into a package-level function taking the receiver as a parameter, or the
+	// reverse: same unexported name, the other form (unique within the package)
+	if strings.HasPrefix(rest, "(") {
+		end := strings.Index(rest, ")")
+		meth := rest[end+2:]
+		if !token.IsExported(meth) {
+			if f := pkg.Func(meth); f != nil {
+				return f
+			}
+		}
+	} else if !token.IsExported(rest) {
+		var found *ssa.Function
+		n := 0
+		for _, m := range pkg.Members {
+			tp, ok := m.(*ssa.Type)
+			if !ok {
+				continue
+			}
+			for _, ty := range []types.Type{tp.Type(), types.NewPointer(tp.Type())} {
+				if sel := p.SSA.MethodSets.MethodSet(ty).Lookup(pkg.Pkg, rest); sel != nil {
+					if f := p.SSA.MethodValue(sel); f != nil && f != found {
+						found = f
+						n++
+					}
+				}
+			}
+		}
+		if n == 1 {
+			return found
+		}
 	}
 	return nil
 }
@@ -361,13 +394,14 @@ func shortFn(fn *ssa.Function) string {
 	if fn == nil {
 		return "?"
 	}
-	s := fn.String()
+	s := canonical(fn.String())
 	s = strings.ReplaceAll(s, modPath+"/", "")
 	s = strings.ReplaceAll(s, modPath+".", "")
 	return s
 }
 
 func shortName(s string) string {
+	s = canonical(s)
 	s = strings.ReplaceAll(s, modPath+"/", "")
 	s = strings.ReplaceAll(s, modPath+".", "")
 	s = strings.ReplaceAll(s, "github.com/russellhaering/goxmldsig", "dsig")
@@ -474,4 +508,155 @@ func (p *Prog) DepFn(pkgPath, name string) *ssa.Function {
 		return p.SSA.MethodValue(sel)
 	}
 	return sp.Func(name)
+}
+
+// ---------------------------------------------------------------- roles of unexported helpers
+
+// The rules name a handful of unexported helpers. A maintainer may rename them or turn a method into a function; the
+// rules are about the role, not the name. Each role has a structural description; when the canonical name no longer
+// resolves, the unique library function fitting the description takes the role and is reported under the canonical
+// name everywhere (keys, messages, name comparisons). No or several candidates: the anchor stays unresolved.
+type roleDesc struct {
+	Canon   string                    // full name the rules use
+	Results string                    // result tuple, types.TypeString with package paths
+	Pred    func(f *ssa.Function) bool // further requirement (nil = none)
+}
+
+var fnAlias = map[string]string{} // actual full name -> canonical full name (reset per load)
+
+func canonical(s string) string {
+	if len(fnAlias) == 0 {
+		return s
+	}
+	for actual, canon := range fnAlias {
+		if s == actual {
+			return canon
+		}
+		if strings.HasPrefix(s, actual+"$") {
+			return canon + s[len(actual):]
+		}
+		if strings.Contains(s, actual) {
+			// names embedded in call renderings
+			s = strings.ReplaceAll(s, actual+"(", canon+"(")
+		}
+	}
+	return s
+}
+
+func callsDirectly(f *ssa.Function, callee string, depth int) bool {
+	if f == nil || depth > 3 {
+		return false
+	}
+	for _, b := range f.Blocks {
+		for _, in := range b.Instrs {
+			if ci, ok := in.(ssa.CallInstruction); ok {
+				if n, sc := calleeName(ci.Common()); n == callee || (sc != nil && sc.String() == callee) {
+					return true
+				}
+			}
+			if mc, ok := in.(*ssa.MakeClosure); ok {
+				if callsDirectly(mc.Fn.(*ssa.Function), callee, depth+1) {
+					return true
+				}
+			}
+		}
+	}
+	for _, a := range f.AnonFuncs {
+		if callsDirectly(a, callee, depth+1) {
+			return true
+		}
+	}
+	return false
+}
+
+func (p *Prog) discoverRoles() {
+	fnAlias = map[string]string{}
+	roles := []roleDesc{
+		{Canon: "(*" + modPath + ".SAMLServiceProvider).getDecryptCert", Results: "(*crypto/tls.Certificate, error)"},
+		{Canon: modPath + ".parseResponse", Results: "(*github.com/beevik/etree.Document, *github.com/beevik/etree.Element, error)"},
+		{Canon: modPath + ".maybeDeflate", Results: "(error)", Pred: func(f *ssa.Function) bool { return callsDirectly(f, "compress/flate.NewReader", 0) }},
+		{Canon: "(*" + modPath + ".SAMLServiceProvider).decryptAssertions", Results: "(error)", Pred: func(f *ssa.Function) bool {
+			return callsDirectly(f, "(*"+modPath+"/types.EncryptedAssertion).DecryptBytes", 0) && callsDirectly(f, "github.com/russellhaering/goxmldsig/etreeutils.NSFindIterate", 0)
+		}},
+	}
+	for _, r := range roles {
+		if f := p.fnIndex[r.Canon]; f != nil {
+			continue
+		}
+		var cands []*ssa.Function
+		for _, f := range p.LibFns {
+			if f.Parent() != nil || f.Object() == nil || f.Object().Exported() || f.Synthetic != "" {
+				continue
+			}
+			if types.TypeString(f.Signature.Results(), nil) != r.Results {
+				continue
+			}
+			if r.Pred != nil && !r.Pred(f) {
+				continue
+			}
+			cands = append(cands, f)
+		}
+		if len(cands) == 1 {
+			fnAlias[cands[0].String()] = r.Canon
+			p.fnIndex[r.Canon] = cands[0]
+			short := strings.ReplaceAll(strings.ReplaceAll(r.Canon, modPath+"/", ""), modPath+".", "")
+			p.fnIndex[short] = cands[0]
+		}
+	}
+}
+
+// withInstances replaces generic functions (whose bodies mention type parameters and cannot be analysed concretely) by
+// the instantiations that the given functions — transitively — call or take the value of. go/ssa is built with
+// InstantiateGenerics, so every instance has its own concrete body.
+func (p *Prog) withInstances(fns []*ssa.Function) []*ssa.Function {
+	seen := map[*ssa.Function]bool{}
+	var out []*ssa.Function
+	var work []*ssa.Function
+	isGenericOrigin := func(f *ssa.Function) bool {
+		return f.TypeParams().Len() > 0 && len(f.TypeArgs()) == 0
+	}
+	for _, f := range fns {
+		if isGenericOrigin(f) || (f.Parent() != nil && isGenericOrigin(topFn(f))) {
+			continue
+		}
+		seen[f] = true
+		out = append(out, f)
+		work = append(work, f)
+	}
+	var addInst func(f *ssa.Function)
+	addInst = func(f *ssa.Function) {
+		if f == nil || seen[f] || f.Blocks == nil || f.Origin() == nil || !p.inModule(f) {
+			return
+		}
+		seen[f] = true
+		out = append(out, f)
+		work = append(work, f)
+		for _, a := range f.AnonFuncs {
+			if !seen[a] && a.Blocks != nil {
+				seen[a] = true
+				out = append(out, a)
+				work = append(work, a)
+			}
+		}
+	}
+	for len(work) > 0 {
+		f := work[0]
+		work = work[1:]
+		for _, b := range f.Blocks {
+			for _, in := range b.Instrs {
+				for _, op := range in.Operands(nil) {
+					if op == nil || *op == nil {
+						continue
+					}
+					switch v := (*op).(type) {
+					case *ssa.Function:
+						addInst(v)
+					case *ssa.MakeClosure:
+						addInst(v.Fn.(*ssa.Function))
+					}
+				}
+			}
+		}
+	}
+	return out
 }
